@@ -267,7 +267,28 @@ def gen_cases(rng, tier):
             case = {"kind": "text", "recs": recs, "pieces": _gen_template(r, recs), "raw": None}
         else:
             case = {"kind": "text", "recs": recs, "pieces": None, "raw": V.enc_str(r.choice(MALFORMED))}
+        if r.chance(40):
+            case["prior"] = True
         cases.append(case)
+    # grouped records through the CSV and line writers: the flat field list (first member providing a name wins), with
+    # selections that also name ATTRIBUTES of the group object which are not fields (name, records, descriptors, ...)
+    r = rng.fork("grouped")
+    GA = ["g/a", [["string", "s"], ["varint", "n"], ["string", "name"]]]
+    GB = ["g/b", [["string", "u"], ["varint", "n"], ["string", "records"]]]
+    GC = ["g/c", [["string", "path"]]]
+    for _ in range(25 * n):
+        members = [["rec", ds, [V.gen_value(r, t, none_chance=10) for t, _ in ds[1]],
+                    {"_generated": ["dt", [2020, 1, 2, 3, 4, 5, 6], "utc", 0]}]
+                   for ds in r.sample([GA, GB, GC], r.randint(1, 3))]
+        pool = ["s", "n", "u", "path", "name", "records", "descriptors", "flat_fields", "fieldname_to_record", "_source", "nope"]
+        opts = {}
+        w = r.below(4)
+        if w in (0, 1):
+            opts["fields"] = ",".join(r.sample(pool, r.randint(1, 5)))
+        if w in (1, 2):
+            opts["exclude"] = ",".join(r.sample(pool, r.randint(1, 3)))
+        cases.append({"kind": "grp", "name": r.choice(["grp/x", "g"]), "members": members, "opts": opts,
+                      "writer": r.choice(["csv", "line", "line-verbose"])})
     r = rng.fork("read")
     for _ in range(80 * n):
         ncol = r.randint(2, 5)
@@ -377,6 +398,8 @@ def run_real(case):
 
     from flow.record import RecordWriter
 
+    if k == "grp":
+        return _run_grp(case)
     recs = _build(case["recs"])
     tmp = tempfile.mkdtemp(prefix="frv-c20-")
     try:
@@ -455,13 +478,29 @@ def run_real(case):
             used = None if case.get("pieces") is None else {s2 for kind, s2 in case["pieces"] if kind == "field"}
             try:
                 # only what the writer itself needs: repr of the declared fields, or the referenced fields' text
+                # (declared field names come from the CASE, not from rec._desc.fields: that mapping is library state)
                 obs["view"] = [{"name": V.enc_str(rec._desc.name),
-                                "items": [[V.enc_str(n), V.enc_str(repr(getattr(rec, n)))] for n in rec._desc.fields]
+                                "items": [[V.enc_str(n), V.enc_str(repr(getattr(rec, n)))] for _, n in rspec[1][1]]
                                 if spec is None else [],
                                 "lookup": [[V.enc_str(n), V.enc_str(format(getattr(rec, n), ""))]
-                                           for n in rec.__slots__ if used is not None and n in used]} for rec in recs]
+                                           for n in rec.__slots__ if used is not None and n in used]}
+                               for rec, rspec in zip(recs, case["recs"])]
             except Exception as e:
                 obs["str_error"] = _err(e)
+            if case.get("prior"):
+                # the same records went through the other text-oriented writers before (rdump lists them verbosely,
+                # then prints them): what the text writer emits for a record does not depend on that
+                from flow.record.adapter.csvfile import CsvfileWriter
+                from flow.record.adapter.line import LineWriter
+                for W, kw in ((LineWriter, {"verbose": True}), (CsvfileWriter, {})):
+                    try:
+                        w0 = W(os.path.join(tmp, "prior.txt"), **kw)
+                        for rec in recs:
+                            w0.write(rec)
+                        w0.flush()
+                        w0.close()
+                    except Exception:      # noqa: BLE001
+                        pass
             if case.get("pieces") is not None and any(kind == "fmt" for kind, _ in case["pieces"]):
                 # reference for compound replacement fields: Python's own formatter, one field at a time, over the
                 # slot values read with getattr (not through _asdict); None = str.format itself refuses it
@@ -500,6 +539,54 @@ def run_real(case):
             obs["outs"] = chunks
             return obs
         raise ValueError(k)
+    finally:
+        shutil.rmtree(tmp, ignore_errors=True)
+
+
+def _run_grp(case):
+    from flow.record import GroupedRecord
+    from flow.record.adapter.csvfile import CsvfileWriter
+    from flow.record.adapter.line import LineWriter
+    members = [V.build_record(m) for m in case["members"]]
+    g = GroupedRecord(case["name"], members)
+    # the flat view, from the case: every member contributes its declared names, then the reserved ones; first wins
+    flat, owner = [], {}
+    for spec, m in zip(case["members"], members):
+        for n in [fn for _, fn in spec[1][1]] + RESERVED:
+            if n not in owner:
+                owner[n] = m
+                flat.append(n)
+    sel = _select(case["opts"], flat)
+    obs = {"sel": sel}
+    try:
+        obs["cells"] = [V.enc_str(_cell(getattr(owner[n], n))) for n in sel]
+    except Exception as e:          # noqa: BLE001
+        obs["str_error"] = _err(e)
+        return obs
+    tmp = tempfile.mkdtemp(prefix="frv-c20-")
+    try:
+        path = os.path.join(tmp, "out.txt")
+        try:
+            if case["writer"] == "csv":
+                w = CsvfileWriter(path, **case["opts"])
+            else:
+                w = LineWriter(path, verbose=case["writer"] == "line-verbose", **case["opts"])
+            w.write(g)
+            w.flush()
+            w.close()
+        except Exception as e:      # noqa: BLE001
+            obs["write"] = _err(e)
+            return obs
+        if case["writer"] == "csv":
+            with open(path, "r", newline="", errors="surrogateescape") as fp:
+                try:
+                    obs["rows"] = [[V.enc_str(c) for c in row] for row in csv.reader(fp)]
+                except csv.Error as e:
+                    obs["rows"] = None
+                    obs["csv_error"] = str(e)[:100]
+        else:
+            obs["text"] = V.enc_str(open(path, "rb").read().decode("utf-8", "surrogateescape"))
+        return obs
     finally:
         shutil.rmtree(tmp, ignore_errors=True)
 
@@ -609,6 +696,35 @@ def oracle(case, obs):
             if rows != exp:
                 return (f"a standard CSV parser reads {len(rows)} rows that differ from the {len(exp)} expected "
                         f"(header per run + str(value) cells); lineterminator={lt!r}")
+        return None
+    if k == "grp":
+        if "str_error" in obs:
+            return None
+        if "write" in obs:
+            return f"{case['writer']} writer raised {obs['write']['error']} for a grouped record: {obs['write']['msg']}"
+        sel = obs["sel"]
+        if case["writer"] == "csv":
+            if obs.get("rows") is None:
+                return "a standard CSV parser rejects the file written for a grouped record"
+            want = [[V.enc_str(n) for n in sel], obs["cells"]]
+            if any(len(c) // 8 > 100000 for c in obs["cells"]):
+                return None
+            if obs["rows"] != want:
+                return (f"grouped record, options {case['opts']}: CSV header/row {[[V.dec_str(c)[:20] for c in r_] for r_ in obs['rows'][:2]]} "
+                        f"instead of the selected fields {sel} of the flat view")
+            return None
+        text = V.dec_str(obs["text"])
+        if any("\n" in V.dec_str(c) or "\r" in V.dec_str(c) for c in obs["cells"]):
+            return None            # a value with a line break: entries cannot be told from continuation lines
+        import re
+        keys = []
+        for line in text.split("\n")[1:]:
+            m = re.match(r"^\s*(\S+?)(?: \([^)]*\))? = ", line)
+            if m:
+                keys.append(m.group(1))
+        if keys != sel:
+            return (f"grouped record, options {case['opts']}: the line writer prints entries {keys} instead of the "
+                    f"selected fields {sel} of the flat view")
         return None
     if k == "line":
         if "write" in obs:
